@@ -772,6 +772,25 @@ def real_create_jacobians(j):
 
 
 # ---------------------------------------------------------------------- run
+def scan_tensor_constructors(files):
+    """checklist 2: tensor constructors in the anchored files that name no dtype (they take torch's process-wide default)"""
+    import ast
+
+    out = []
+    for f in files:
+        try:
+            tree = ast.parse(Path(f).read_text())
+        except Exception:  # noqa: BLE001
+            continue
+        for n in ast.walk(tree):
+            if (isinstance(n, ast.Call) and isinstance(n.func, ast.Attribute) and isinstance(n.func.value, ast.Name)
+                    and n.func.value.id == "torch"
+                    and n.func.attr in ("tensor", "full", "zeros", "ones", "empty", "arange", "eye", "linspace")
+                    and not any(k.arg == "dtype" for k in n.keywords)):
+                out.append(f"{Path(f).name}:{n.lineno} torch.{n.func.attr}")
+    return out
+
+
 def configs(ck):
     seen, out = set(), []
 
@@ -835,6 +854,7 @@ def run(ck: Check):
             drv = None
     except Exception as e:  # noqa: BLE001
         ck.notes.append(f"driver unavailable: {e}")
+    ck.extra["tensor_constructors_without_dtype"] = scan_tensor_constructors(sorted((REPO / "torchtree" / "cli").glob("*.py")))
     data = C.data_dir()
     found = {}
     try:
